@@ -605,7 +605,7 @@ func scRewards(t *testing.T, w *World, variant int) {
 	d0 := w.VoucherDenom(c0, "stake")
 	d1 := w.VoucherDenom(c1, "stake")
 	w.GovExec(map[string]any{"a": "ChangeRewardDenoms", "add": []string{d0}})
-	if variant%4 == 3 {
+	if variant%4 == 1 {
 		// the EARLIER consumer allow-lists the later consumer's denom; the later consumer itself does not:
 		// its credit in that denom must never be paid out
 		w.Block("p", 5, nil, map[string]any{"a": "UpdateConsumer", "sender": "o1", "c": c0, "denoms": []string{d1}})
@@ -665,7 +665,11 @@ func scRewards(t *testing.T, w *World, variant int) {
 // active validators once and reuses them for every consumer)
 func scMixedConsumers(t *testing.T, w *World, variant int) {
 	// c0: Top-N (governance-owned) where a validator below the threshold has NOT opted in and a smaller one has
-	w.Block("p", 5, nil, map[string]any{"a": "CreateConsumer", "sender": "o1", "chain": "mixa-1", "init": map[string]any{"initRev": 1, "spawn": w.now() + 60}})
+	spawn0 := w.now() + 60
+	if variant%2 == 0 {
+		spawn0 = w.now() + 35 // the Top-N consumer launches a few blocks before the others; odd variants: all in one block
+	}
+	w.Block("p", 5, nil, map[string]any{"a": "CreateConsumer", "sender": "o1", "chain": "mixa-1", "init": map[string]any{"initRev": 1, "spawn": spawn0}})
 	w.Block("p", 5, nil, map[string]any{"a": "UpdateConsumer", "sender": "o1", "c": "c0", "newOwner": "gov"})
 	topN := []int{50, 51, 60, 67}[variant%4]
 	sh := map[string]any{"topN": topN}
@@ -674,8 +678,8 @@ func scMixedConsumers(t *testing.T, w *World, variant int) {
 	}
 	w.GovExec(map[string]any{"a": "UpdateConsumer", "c": "c0", "shaping": sh})
 	// c1: plain opt-in, everybody opts in; c2: opt-in with a cap and a priority list
-	w.Block("p", 5, nil, map[string]any{"a": "CreateConsumer", "sender": "o1", "chain": "mixb-1", "init": map[string]any{"initRev": 1, "spawn": w.now() + 50}},
-		map[string]any{"a": "CreateConsumer", "sender": "o2", "chain": "mixc-1", "init": map[string]any{"initRev": 1, "spawn": w.now() + 50},
+	w.Block("p", 5, nil, map[string]any{"a": "CreateConsumer", "sender": "o1", "chain": "mixb-1", "init": map[string]any{"initRev": 1, "spawn": w.now() + 55}},
+		map[string]any{"a": "CreateConsumer", "sender": "o2", "chain": "mixc-1", "init": map[string]any{"initRev": 1, "spawn": w.now() + 55},
 			"shaping": map[string]any{"valCap": 2 + variant%2, "prioL": []string{"v4"}, "powCap": []int{0, 34, 50}[variant%3]}})
 	n := w.Cfg.NumVals
 	var txs []map[string]any
@@ -736,7 +740,7 @@ func scKeyRotation(t *testing.T, w *World, variant int) {
 		w.Block("p", 5, nil, map[string]any{"a": "CreateValidator", "v": fmt.Sprintf("v%d", nv+1+i), "key": key, "amt": 1500000})
 	}
 	// time passes over the pruning deadlines in steps around them
-	for i := 0; i < 12; i++ {
+	for i := 0; i < 24; i++ {
 		w.Block("p", []int64{1800, 1795, 5, 5}[i%4], nil)
 		if i%3 == 0 {
 			w.Block("p", 5, nil, map[string]any{"a": "AssignKey", "v": "v3", "c": c0, "key": []string{"k1", "k2", "k7", "k8"}[(i/3)%4]})
